@@ -1701,3 +1701,161 @@ var grdClosedExceptions = map[string]string{
 	"Index.Close":            "Close is the operation that sets the flag",
 	"Index.AddOld":           "legacy insertion path kept for reference; no caller in the module (its replacement Add/addActive holds activeMu and tests the flag)",
 }
+
+// ---------- GRD-trained: nothing is quantized for storage by an untrained quantizer ----------
+
+// ruleGRDtrained: an untrained quantizer maps every vector to zeros. In every function that trains the quantizer at
+// all (the insertion paths), each Quantize is reached only after a training attempt (ensureQuantizerTrained / Train)
+// or over the "already trained" edge of an IsTrained test — never over a shortcut that skips the attempt for some
+// other reason (a counter, a flag, "only the first insert can find it untrained": a first all-zero vector leaves it
+// untrained).
+func ruleGRDtrained(w *World, r *Report) {
+	r.Doc("GRD-trained", "in every insertion path that can train the int8 quantizer, each Quantize call is reached only after a training attempt or over the is-trained edge of an IsTrained test", 3)
+	ensure := w.FuncObj(hnswPkg, "Index.ensureQuantizerTrained")
+	train := w.FuncObj("pkg/core/distance", "Quantizer.Train")
+	isTr := w.FuncObj("pkg/core/distance", "Quantizer.IsTrained")
+	quant := w.FuncObj("pkg/core/distance", "Quantizer.Quantize")
+	if ensure == nil || train == nil || isTr == nil || quant == nil {
+		r.Und("GRD-trained", "anchor:quantizer-api", "", "anchor lost: ensureQuantizerTrained / Quantizer.Train / IsTrained / Quantize")
+		return
+	}
+	attempts := callsTo(ensure, train)
+	n := 0
+	for _, fn := range w.pkgSSAFuncs(hnswPkg) {
+		if fn.Parent() != nil {
+			continue
+		}
+		if o, ok := fn.Object().(*types.Func); ok && o == ensure {
+			continue
+		}
+		if len(findInstrs(fn, attempts)) == 0 {
+			continue
+		}
+		// edges on which the quantizer is known to be trained, or known to be absent (nothing to quantize with)
+		blocked := map[edgeKey]bool{}
+		for _, in := range findInstrs(fn, callsTo(isTr)) {
+			t, _ := condEdges(in.(*ssa.Call))
+			for _, e := range t {
+				blocked[e] = true
+			}
+		}
+		// ... or the index is not an int8 index at all (the closure that quantizes does so under the same test)
+		for e := range notInt8Edges(w, fn) {
+			blocked[e] = true
+		}
+		for _, b := range fn.Blocks {
+			for _, in := range b.Instrs {
+				bo, ok := in.(*ssa.BinOp)
+				if !ok || (bo.Op != token.EQL && bo.Op != token.NEQ) || !(isNilConst(bo.X) || isNilConst(bo.Y)) {
+					continue
+				}
+				other := bo.X
+				if isNilConst(other) {
+					other = bo.Y
+				}
+				if !strings.HasSuffix(other.Type().String(), "distance.Quantizer") {
+					continue
+				}
+				t, f := condEdges(bo)
+				nilEdges := t
+				if bo.Op == token.NEQ {
+					nilEdges = f
+				}
+				for _, e := range nilEdges {
+					blocked[e] = true
+				}
+			}
+		}
+		k := 0
+		for _, f := range append([]*ssa.Function{fn}, closuresOf(fn)...) {
+			for _, q := range findInstrs(f, callsTo(quant)) {
+				n++
+				k++
+				// where the quantization happens in terms of fn: the call itself, or the creation of the closure that holds it
+				var site ssa.Instruction = q
+				if f != fn {
+					outer := f
+					for outer.Parent() != nil && outer.Parent() != fn {
+						outer = outer.Parent()
+					}
+					site = nil
+					for _, in := range findInstrs(fn, func(in ssa.Instruction) bool { mc, ok := in.(*ssa.MakeClosure); return ok && mc.Fn == outer }) {
+						site = in
+					}
+					if site == nil {
+						r.Und("GRD-trained", fmt.Sprintf("%s:quantize#%d:after-training-attempt", shortFn(fn), k), w.Pos(q.Pos()), "a nested function quantizes; its creation site was not found")
+						continue
+					}
+				}
+				ss := site
+				found, wit := pathQuery{fn: fn, target: func(in ssa.Instruction) bool { return in == ss }, avoid: attempts, blocked: blocked}.find(entryPos(fn))
+				r.Cond(!found, "GRD-trained", fmt.Sprintf("%s:quantize#%d:after-training-attempt", shortFn(fn), k), w.Pos(q.Pos()), "reached only after a training attempt or over the is-trained edge", shortFn(fn)+" can quantize a vector for storage on a path that skipped the training attempt for a reason other than 'already trained': while the quantizer is untrained (for example after a first all-zero vector) every vector stored over that path becomes all zeros", w.witness(wit)...)
+			}
+		}
+	}
+	if n == 0 {
+		r.Und("GRD-trained", "anchor:quantize-sites", "", "no Quantize call found in a function that trains the quantizer")
+	}
+}
+
+// notInt8Edges: the edges of fn taken when a precision value was compared with distance.Int8 and differed.
+func notInt8Edges(w *World, fn *ssa.Function) map[edgeKey]bool {
+	out := map[edgeKey]bool{}
+	p := w.Pkg("pkg/core/distance")
+	if p == nil {
+		return out
+	}
+	cv, ok := p.Types.Scope().Lookup("Int8").(*types.Const)
+	if !ok {
+		return out
+	}
+	for _, b := range fn.Blocks {
+		for _, in := range b.Instrs {
+			bo, ok := in.(*ssa.BinOp)
+			if !ok || (bo.Op != token.EQL && bo.Op != token.NEQ) {
+				continue
+			}
+			var c *ssa.Const
+			if x, ok := bo.X.(*ssa.Const); ok {
+				c = x
+			} else if y, ok := bo.Y.(*ssa.Const); ok {
+				c = y
+			}
+			if c == nil || c.Value == nil || !types.Identical(c.Type(), cv.Type()) || c.Value.ExactString() != cv.Val().ExactString() {
+				continue
+			}
+			t, f := condEdges(bo)
+			other := f
+			if bo.Op == token.NEQ {
+				other = t
+			}
+			for _, e := range other {
+				out[e] = true
+			}
+		}
+	}
+	return out
+}
+
+// ruleGRDtrainfull: a precision change to int8 trains the quantizer on the whole data set before the first vector is
+// re-inserted. (The batch path auto-trains an untrained quantizer on what it is given, and the rebuilt index is empty,
+// so its small-graph path inserts one vector at a time: without the explicit pass the scale is learnt from the first
+// vector alone and every larger component of every other vector is clipped.)
+func ruleGRDtrainfull(w *World, r *Report) {
+	r.Doc("GRD-trainfull", "DB.Compress, on the int8 path, calls Index.TrainQuantizer before the first AddBatch into the rebuilt index", 1)
+	fi := w.Func("pkg/core", "DB.Compress")
+	tq := w.FuncObj(hnswPkg, "Index.TrainQuantizer")
+	ab := w.FuncObj(hnswPkg, "Index.AddBatch")
+	if fi == nil || tq == nil || ab == nil {
+		r.Und("GRD-trainfull", "anchor:DB.Compress/TrainQuantizer/AddBatch", "", "anchor lost")
+		return
+	}
+	fn := w.SSAFunc(fi.Obj)
+	adds := findInstrs(fn, callsTo(ab))
+	if len(adds) == 0 {
+		r.Und("GRD-trainfull", "DB.Compress:re-insertion", w.Pos(fi.Decl.Pos()), "DB.Compress no longer re-inserts through Index.AddBatch (shape not recognised)")
+		return
+	}
+	found, wit := pathQuery{fn: fn, target: callsTo(ab), avoid: callsTo(tq), blocked: notInt8Edges(w, fn)}.find(entryPos(fn))
+	r.Cond(!found, "GRD-trainfull", "DB.Compress:int8:trained-on-all-vectors-before-re-insertion", w.Pos(adds[0].Pos()), "on the int8 path TrainQuantizer precedes the first AddBatch", "DB.Compress can re-insert vectors into the int8 index without having trained the quantizer on the whole data set first: the batch path then trains on the first vector alone, and every component larger than that vector's maximum is clipped in every other vector", w.witness(wit)...)
+}
